@@ -583,8 +583,11 @@ pub fn worker(w: &mut Worker) {
     let idx: Vec<usize> = (0..forms.len()).collect();
     let configs = [OnError::Absent, OnError::Continue, OnError::Exit, OnError::Crash, OnError::ExitZero, OnError::ExitCode, OnError::GoTo, OnError::Error];
     let rigs: Vec<Rig> = configs.iter().map(|c| Rig::new(*c)).collect();
-    let _ = std::fs::create_dir_all(&w.scratch);
-    let file = w.scratch.join("c03.ds");
+    // the script file has a name (and a directory) a path-handling slip would trip over: a blank, a
+    // backslash, a multi-byte letter, a '#', an upper-case letter
+    let file_dir = w.scratch.join("c03 d\\ir É#1");
+    let _ = std::fs::create_dir_all(&file_dir);
+    let file = file_dir.join("scr\\ipt é #2.ds");
     std::fs::write(&file, "").expect("scratch file");
     let file_raw = file.to_string_lossy().to_string();
     let file_s = std::fs::canonicalize(&file).map(|p| p.to_string_lossy().to_string()).unwrap_or(file_raw);
@@ -756,7 +759,7 @@ pub fn replay(case: &Value) -> Result<String, String> {
     let as_file = case["as_file"].as_bool().unwrap_or(false);
     let dir = scratch_root().join(format!("replay-{}", std::process::id()));
     let _ = std::fs::create_dir_all(&dir);
-    let f = dir.join("c03.ds");
+    let f = dir.join("scr\\ipt é #2.ds");
     std::fs::write(&f, &text).map_err(|e| e.to_string())?;
     let fs = std::fs::canonicalize(&f).map(|p| p.to_string_lossy().to_string()).unwrap_or_else(|_| f.to_string_lossy().to_string());
     let src = if as_file { Some(fs.as_str()) } else { None };
@@ -772,7 +775,7 @@ pub fn crash_sig(_case: &Value, kind: &str) -> String {
     kind.to_string()
 }
 
-pub const RULE: &str = "programs: every sequence of 1..n lines over 15 line forms (a pre-processor line `!print -`, `x =` and `:a x =`, and label none/:a/:b x {no command, `k p ${x}`, `x = k p ${x}`, unknown command `nope p`}), duplicates of labels included; configurations: on_error command absent / continuing / exiting / crashing, script as text and (small programs) as file; answers: at every invocation of the scripted command k one of 18 results (Continue with/without value, Continue after removing the registered on_error command / registering one where there is none, Continue after registering / removing the command `nope` that other lines use, GoTo label :a/:b/undefined, GoTo line 0/n/n+5, Error with plain message / message containing ${x}, Crash, Exit none/0/3/-1/abc), explored with a bounded number of deviations from the default answer within a horizon of choice points. Every execution of the real runner is compared with the abstract machine run on the same answers: sequence of invocations with bound arguments and the `line` each command sees, on_error arguments (message, 1-based line, source) and the value the handler finds in the output variable when it runs, final variables, success or failure with source line and file. Scale cases: programs of 300/3000 (thorough 100000) lines with a far forward jump by label over unknown commands, a jump past the end, far backward jumps by label and by line, errors on the first and last line. evaluations = programs x configurations; transitions = executions; states = distinct (calls, outcome, deviations) classes. on_error configurations: absent, continuing, exit (no value, 0, 3), crash, goto and error results of the handler (only exit and crash fail the run). File offsets: scripts as files with a 2-, 3- or 4-byte character starting 5..0 bytes in front of every power of two from 512 to 65536 (thorough 2^20) and of 1000 / 10000 / 100000: run_script_file ends with the variables run_script of the same text ends with";
+pub const RULE: &str = "programs: every sequence of 1..n lines over 15 line forms (a pre-processor line `!print -`, `x =` and `:a x =`, and label none/:a/:b x {no command, `k p ${x}`, `x = k p ${x}`, unknown command `nope p`}), duplicates of labels included; configurations: on_error command absent / continuing / exiting / crashing, script as text and (small programs) as file; answers: at every invocation of the scripted command k one of 18 results (Continue with/without value, Continue after removing the registered on_error command / registering one where there is none, Continue after registering / removing the command `nope` that other lines use, GoTo label :a/:b/undefined, GoTo line 0/n/n+5, Error with plain message / message containing ${x}, Crash, Exit none/0/3/-1/abc), explored with a bounded number of deviations from the default answer within a horizon of choice points. Every execution of the real runner is compared with the abstract machine run on the same answers: sequence of invocations with bound arguments and the `line` each command sees, on_error arguments (message, 1-based line, source) and the value the handler finds in the output variable when it runs, final variables, success or failure with source line and file. Scale cases: programs of 300/3000 (thorough 100000) lines with a far forward jump by label over unknown commands, a jump past the end, far backward jumps by label and by line, errors on the first and last line. evaluations = programs x configurations; transitions = executions; states = distinct (calls, outcome, deviations) classes. on_error configurations: absent, continuing, exit (no value, 0, 3), crash, goto and error results of the handler (only exit and crash fail the run). File offsets: scripts as files with a 2-, 3- or 4-byte character starting 5..0 bytes in front of every power of two from 512 to 65536 (thorough 2^20) and of 1000 / 10000 / 100000: run_script_file ends with the variables run_script of the same text ends with. The script file of the file runs lives under a directory and a name with a blank, a backslash, multi-byte and upper-case letters and a '#'";
 pub const ASSUMPTIONS: &[&str] = &["a line with an output variable and no command (`x =`) is a continue result without a value: that is what the public run_instruction returns for it, so the variable is deleted", "error messages are compared only through the on_error arguments; failures are compared by line and source file"];
 pub const EXHAUSTIVE: bool = true;
 pub const WALL_CAP_S: (u64, u64) = (55, 1500);
